@@ -2,6 +2,7 @@ import Infretis.Lemmas.PathAlg
 import Infretis.Lemmas.PathAlgCls
 import Infretis.Lemmas.PathAlgRev
 import Infretis.Lemmas.PathAlgWF
+import Infretis.Lemmas.PathAlgExt
 /-!
 # C15 — path algebra: paste, reverse, copy and classification are consistent
 
@@ -702,5 +703,261 @@ example :
     ∧ (paste back forw false none).map (·.frames) = .ok [1, 0, 0, 2]    -- two unlimited segments, no overlap
     ∧ (paste back forw false none).map (·.maxlen) = .ok none := by
   refine ⟨rfl, rfl, rfl, rfl, rfl⟩
+
+
+/-! ## extension pass: container objects (numpy arrays, dict, order list): shallow copies share them -/
+
+/-- **Every reachable heap keeps container identities fresh**: on every state any op program can reach,
+    every container object (order list, pos / vel / box array, temperature dict) held by any System is
+    older than the next identity the machine will hand out — so "a fresh object" in the model really is
+    an object nobody else holds. -/
+theorem reachable_fresh (ops : List Op) : (Machine.init.run ops).heap.Fresh :=
+  run_fresh ops Machine.init (fun p hp => by simp [Machine.init] at hp)
+    (fun s hs => by simp [Machine.init, Heap.empty] at hs)
+
+/-- **In-place mutation is seen by exactly the sharers.**  `frame.pos[0] = x` (likewise `vel`, `box`,
+    `temperature["t"]`) through reference `r`: a System shows the new value iff it holds the same
+    container object as `r`; every other System, every other field and all identities stay. -/
+theorem inplace_seen_by_sharers (h : Heap) (r : Nat) (a : Arr) (x : Int) (s : Sys) (hs : h.look r = some s) :
+    ∃ h', h.setArrItem r a x = some h' ∧
+      ∀ r', h'.look r' = (h.look r').map
+        (fun s' => if s'.arrObj a = s.arrObj a then { s' with v := s'.v.setArr a x } else s') := by
+  obtain ⟨h', h1, _, _, h4⟩ := setArrItem_spec h r a x s hs
+  exact ⟨h', h1, h4⟩
+
+/-- **copy() is shallow for every container field** (general form of `copy_inplace_counterexample`):
+    for every path, every frame position `k` the copy has, and every container field, an in-place
+    mutation through frame `k` of the COPY is seen through frame `k` of the ORIGINAL (they are
+    different System objects holding the same arrays). The property's independence is about
+    re-assignment only. -/
+theorem copy_inplace_seen_by_original (h : Heap) (p : Path) (hwf : WF h p.frames) (k r r' : Nat)
+    (hr : p.frames[k]? = some r) (hr' : (Path.copy h p).2.frames[k]? = some r') (a : Arr) (x : Int) :
+    r ≠ r' ∧ ∃ h2, (Path.copy h p).1.setArrItem r' a x = some h2
+      ∧ (h2.look r).map (fun s => s.v.arr a) = some x
+      ∧ (h2.look r').map (fun s => s.v.arr a) = some x := by
+  have hrl : r < h.sys.length := hwf r (List.mem_of_getElem? hr)
+  have hfr := copy_frames_fresh h p hwf
+  have hr'mem : r' ∈ List.range' h.sys.length (capLen p.maxlen p.frames.length) := by
+    rw [← hfr]; exact List.mem_of_getElem? hr'
+  have hge : h.sys.length ≤ r' := (List.mem_range'_1.1 hr'mem).1
+  have hold : (Path.copy h p).1.look r = h.look r := copy_old_untouched h p hwf r hrl
+  -- the copy's frame k holds the same record as the original's frame k
+  have hsame : (Path.copy h p).1.look r' = h.look r := by
+    have hv := (copy_values h p hwf).1
+    have e1 : ((Path.copy h p).2.frames.map (Path.copy h p).1.look)[k]? = some ((Path.copy h p).1.look r') := by
+      rw [List.getElem?_map, hr']; rfl
+    rw [hv] at e1
+    have e2 := capTake_getElem?_of_some _ _ _ _ e1
+    rw [List.getElem?_map, hr] at e2
+    exact (Option.some.inj e2).symm
+  obtain ⟨s, hs⟩ : ∃ s, h.look r = some s := ⟨_, look_of_lt h r hrl⟩
+  obtain ⟨h2, h21, _, _, h24⟩ := setArrItem_spec (Path.copy h p).1 r' a x s (hsame.trans hs)
+  refine ⟨by omega, h2, h21, ?_, ?_⟩
+  · rw [h24 r, hold, hs]; simp [setArr_arr]
+  · rw [h24 r', hsame, hs]; simp [setArr_arr]
+
+/-- **Re-assignment un-shares.**  On a heap with fresh identities (every reachable heap, by
+    `reachable_fresh`): once a container field of a frame has been RE-ASSIGNED (`frame.pos = new_array`),
+    even in-place mutation of that field through this frame touches no other object. -/
+theorem reassign_makes_private (h : Heap) (hf : h.Fresh) (r' : Nat) (s : Sys) (hs : h.look r' = some s)
+    (a : Arr) (x y : Int) :
+    ∃ h2, (h.setArr r' a x).setArrItem r' a y = some h2
+      ∧ (∀ r, r ≠ r' → h2.look r = h.look r)
+      ∧ (h2.look r').map (fun s => s.v.arr a) = some y := by
+  have hself := setArr_look_self h r' a x s hs
+  obtain ⟨h2, h21, _, _, h24⟩ := setArrItem_spec (h.setArr r' a x) r' a y _ hself
+  refine ⟨h2, h21, ?_, ?_⟩
+  · intro r hne
+    rw [h24 r, setArr_look_ne h r r' a x hne]
+    cases hl : h.look r with
+    | none => rfl
+    | some s0 =>
+      have hlt := (hf s0 (look_mem h r s0 hl)).2 a
+      simp only [Option.map_some, withArrObj_arrObj_self]
+      rw [if_neg (by omega)]
+  · rw [h24 r', hself]
+    simp [withArrObj_arrObj_self, withArrObj_v, setArr_arr]
+
+example :
+    let v : Vals := { config := (0, 0), order := [1], velRev := false, ekin := none, vpot := none,
+                      pos := 3, vel := 0, box := 0, temp := 0 }
+    let m := Machine.init.run [.new none 0, .sys 0 v, .copy 0, .setArrItem 1 0 .pos 9]
+    -- the original frame (reference 0) sees pos = 9 written through the copy (reference 1)
+    (m.heap.look 0).map (·.v.pos) = some 9 ∧ m.paths.map (·.frames) = [[0], [1]]
+    -- after re-assigning pos on the copy first, the original keeps 3
+    ∧ ((Machine.init.run [.new none 0, .sys 0 v, .copy 0, .set 1 0 (.pos 5), .setArrItem 1 0 .pos 9]).heap.look 0).map
+        (·.v.pos) = some 3 := by
+  refine ⟨rfl, rfl, rfl⟩
+
+
+/-! ## `Path.__eq__` / `__ne__` -/
+
+/-- **What `==` on paths means** (same class, same attribute names, every frame has an order value):
+    the two paths hold the SAME frame objects in the same order (`System` has no `__eq__`, so frames are
+    compared by identity) and — unless they are empty — agree on `maxlen`, `time_origin`, `status`,
+    `generated`, `path_number`.  `weights` / `weight` play no role; two empty paths are always equal. -/
+theorem eq_spec (h : Heap) (p q : Path) (seq : List Int) (hs : orderSeq h p = some seq) :
+    Path.eq true true h p q = .ok (decide (p.frames = q.frames ∧ (p.frames = [] ∨
+      (p.maxlen = q.maxlen ∧ p.timeOrigin = q.timeOrigin ∧ p.status = q.status
+        ∧ p.generated = q.generated ∧ p.pathNumber = q.pathNumber)))) := by
+  unfold Path.eq
+  simp only [Bool.not_true, Bool.false_eq_true, if_false]
+  by_cases hlen : p.frames.length = q.frames.length
+  · have hid := framesIdentical_iff p.frames q.frames hlen
+    by_cases hfr : p.frames = q.frames
+    · have hq : orderSeq h q = some seq := by rw [← orderSeq_congr h p q hfr]; exact hs
+      simp only [hlen, bne_self_eq_false, Bool.false_eq_true, if_false, hid.2 hfr, Bool.not_true]
+      by_cases hemp : p.frames = []
+      · simp [hemp, hfr ▸ hemp]
+      · have hne : seq ≠ [] := by
+          intro hh
+          have := orderSeq_length h p seq hs
+          rw [hh] at this
+          exact hemp (List.length_eq_zero_iff.1 this.symm)
+        have hsv := showViEq_self_ok seq hne
+        have hemp' : p.frames.isEmpty = false := by
+          cases hpf : p.frames with
+          | nil => exact absurd hpf hemp
+          | cons _ _ => rfl
+        have hempq : ¬ q.frames = [] := fun hh => hemp (hfr.trans hh)
+        simp only [hemp', Bool.false_eq_true, if_false, hs, hq, hsv.1, hsv.2, Bool.not_true]
+        by_cases h1 : p.maxlen = q.maxlen <;> by_cases h2 : p.timeOrigin = q.timeOrigin <;>
+          by_cases h3 : p.status = q.status <;> by_cases h4 : p.generated = q.generated <;>
+          by_cases h5 : p.pathNumber = q.pathNumber <;> simp [h1, h2, h3, h4, h5, hfr, hempq]
+    · have : framesIdentical p.frames q.frames = false := by
+        cases hfi : framesIdentical p.frames q.frames with
+        | false => rfl
+        | true => exact absurd (hid.1 hfi) hfr
+      simp [hlen, this, hfr]
+  · have hfr : p.frames ≠ q.frames := fun hh => hlen (by rw [hh])
+    simp [hlen, hfr]
+
+/-- `!=` is the negation of `==` (including the exception) -/
+theorem ne_is_not_eq (c k : Bool) (h : Heap) (p q : Path) :
+    Path.ne c k h p q = (Path.eq c k h p q).map (fun b => !b) := by
+  unfold Path.ne
+  cases Path.eq c k h p q <;> rfl
+
+/-- **A non-empty path never compares equal to its own copy** (nor does the copy to the original): the
+    copy holds fresh System objects, and `__eq__` compares frames by identity.  Equality of paths in
+    infretis is therefore identity of frames, not equality of content. -/
+theorem copy_never_equal (h : Heap) (p : Path) (hwf : WF h p.frames) (hne : p.frames ≠ []) :
+    Path.eq true true (Path.copy h p).1 p (Path.copy h p).2 = .ok false
+    ∧ Path.eq true true (Path.copy h p).1 (Path.copy h p).2 p = .ok false := by
+  have hfr := copy_frames_fresh h p hwf
+  have hdiff : p.frames ≠ (Path.copy h p).2.frames := by
+    intro hh
+    cases hpf : p.frames with
+    | nil => exact hne hpf
+    | cons r rs =>
+      have hr : r < h.sys.length := hwf r (by simp [hpf])
+      rw [hfr, hpf] at hh
+      cases hn : capLen p.maxlen (r :: rs).length with
+      | zero => rw [hn] at hh; simp at hh
+      | succ n =>
+        rw [hn, List.range'_succ] at hh
+        injection hh with h1 _
+        omega
+  have key : ∀ a b : Path, a.frames ≠ b.frames → Path.eq true true (Path.copy h p).1 a b = .ok false := by
+    intro a b hab
+    unfold Path.eq
+    simp only [Bool.not_true, Bool.false_eq_true, if_false]
+    by_cases hlen : a.frames.length = b.frames.length
+    · have : framesIdentical a.frames b.frames = false := by
+        cases hfi : framesIdentical a.frames b.frames with
+        | false => rfl
+        | true => exact absurd ((framesIdentical_iff _ _ hlen).1 hfi) hab
+      simp [hlen, this]
+    · simp [hlen]
+  exact ⟨key _ _ hdiff, key _ _ (fun hh => hdiff hh.symm)⟩
+
+example :
+    let v : Vals := { config := (0, 0), order := [1], velRev := false, ekin := none, vpot := none,
+                      pos := 0, vel := 0, box := 0, temp := 0 }
+    (Machine.init.run [.new (some 9) 0, .sys 0 v, .copy 0, .eq 0 1, .eq 0 0, .new (some 9) 0, .app 2 0 0, .eq 0 2,
+        .pset 2 (.weights (some 5)), .eq 0 2, .pset 2 (.status 1), .eq 0 2, .ne 0 2]).log
+      = ["new", "True", "copy", "False", "True", "new", "True", "True", "pset", "True", "pset", "False", "True"] := by
+  rfl
+
+
+/-! ## `get_shooting_point` -/
+
+/-- **The shooting point is never an end point.**  The draw requested is `integers(1, L−1)` (uniform on
+    `[1, L−1)`); whatever value in that range the generator answers, the method returns an interior index
+    `0 < k < L−1` together with the frame OBJECT stored at that index (no copy). -/
+theorem shooting_point_interior (h : Heap) (p : Path) (idx : Int)
+    (hlo : (shootRequest p).lo ≤ idx) (hhi : idx < (shootRequest p).hi)
+    (hord : ∀ r ∈ p.frames, ∃ s, h.look r = some s ∧ s.v.order ≠ []) :
+    ∃ (k : Nat) (r : Nat), idx = (k : Int) ∧ 0 < k ∧ k + 1 < p.frames.length ∧ p.frames[k]? = some r
+      ∧ shootingPoint h p idx = .ok (r, idx) := by
+  simp only [shootRequest] at hlo hhi
+  have hk : idx.toNat < p.frames.length := by omega
+  refine ⟨idx.toNat, p.frames[idx.toNat], by omega, by omega, by omega, List.getElem?_eq_getElem hk, ?_⟩
+  obtain ⟨s, hs, hso⟩ := hord _ (List.getElem_mem hk)
+  unfold shootingPoint pyIndex
+  rw [if_pos (by omega), List.getElem?_eq_getElem hk]
+  simp only [hs]
+  cases ho : s.v.order with
+  | nil => exact absurd ho hso
+  | cons a t => rfl
+
+/-- no draw is possible (numpy raises ValueError for an empty range) exactly for paths of length ≤ 2:
+    they have no interior frame -/
+theorem shooting_no_draw_iff (p : Path) :
+    (shootRequest p).hi ≤ (shootRequest p).lo ↔ p.frames.length ≤ 2 := by
+  simp only [shootRequest]; omega
+
+example :
+    let v : Vals := { config := (0, 0), order := [1], velRev := false, ekin := none, vpot := none,
+                      pos := 0, vel := 0, box := 0, temp := 0 }
+    (Machine.init.run [.new none 0, .sys 0 v, .sys 0 v, .shoot 0 0, .sys 0 v, .sys 0 v, .shoot 0 0, .shoot 0 1,
+        .shoot 0 2]).log.drop 3
+      = ["shoot:1:1:err:value", "True", "True", "shoot:1:3:1:1", "shoot:1:3:2:2", "shoot:1:3:1:1"] := by
+  rfl
+
+
+/-! ## `update_energies`, `empty_path` -/
+
+/-- **update_energies aligns by index**: on a path whose frames are distinct objects, frame `k` receives
+    `ekin[k]` / `vpot[k]` (`None` when the list is too short), nothing else of that frame changes, and
+    every object that is not a frame of the path is untouched. -/
+theorem update_energies_spec (h : Heap) (p : Path) (ekin vpot : List Int) (hnd : p.frames.Nodup) :
+    (∀ r, r ∉ p.frames → (updateEnergies h p ekin vpot).look r = h.look r)
+    ∧ (∀ k r, p.frames[k]? = some r →
+        (updateEnergies h p ekin vpot).look r = (h.look r).map (setEnergies ekin vpot k)) := by
+  obtain ⟨h1, h2⟩ := updGo_spec ekin vpot p.frames 0 h hnd
+  refine ⟨h1, ?_⟩
+  intro k r hk
+  have := h2 k r hk
+  rwa [Nat.zero_add] at this
+
+/-- whatever the path looks like (repeated frames, dangling references): `update_energies` changes nothing
+    but `ekin` / `vpot` — in particular no order value, so no classification. -/
+theorem update_energies_only_energies (h : Heap) (p : Path) (ekin vpot : List Int) (r : Nat) :
+    ((updateEnergies h p ekin vpot).look r).map noEnergies = (h.look r).map noEnergies :=
+  updGo_only_energies ekin vpot p.frames 0 h r
+
+/-- **empty_path shares nothing with the path it is called on**: the result has no frames and fresh
+    attributes; its limit is the `maxlen` passed or the module default 100000 (NOT `self.maxlen`), its
+    time origin the one passed or 0.  (Only the class is taken from `self`.) -/
+theorem empty_path_shares_nothing (self other : Path) (ml : Option (Option Int)) (t : Option Int) :
+    self.emptyPath ml t = other.emptyPath ml t
+    ∧ (self.emptyPath ml t).frames = []
+    ∧ (self.emptyPath ml t).maxlen = (match ml with | none => some 100000 | some m => m)
+    ∧ (self.emptyPath ml t).timeOrigin = (match t with | none => 0 | some t => t)
+    ∧ (self.emptyPath ml t).status = 0 ∧ (self.emptyPath ml t).generated = none
+    ∧ (self.emptyPath ml t).pathNumber = none ∧ (self.emptyPath ml t).weights = none
+    ∧ (self.emptyPath ml t).weight = 0 :=
+  ⟨rfl, rfl, rfl, rfl, rfl, rfl, rfl, rfl, rfl⟩
+
+example :
+    let v : Vals := { config := (0, 0), order := [1], velRev := false, ekin := some 1, vpot := some 2,
+                      pos := 0, vel := 0, box := 0, temp := 0 }
+    let m := Machine.init.run [.new (some 7) 3, .sys 0 v, .sys 0 v, .sys 0 v, .upd 0 [5, 6] [8], .emptyDef 0 none none]
+    m.log.drop 4 = ["upd:2:1", "empty"]
+    ∧ [0, 1, 2].map (fun r => (m.heap.look r).map (fun s => (s.v.ekin, s.v.vpot)))
+        = [some (some 5, some 8), some (some 6, none), some (none, none)]
+    ∧ m.paths.map (·.maxlen) = [some 7, some 100000] := by
+  refine ⟨rfl, rfl, rfl⟩
 
 end Infretis.C15
